@@ -167,6 +167,13 @@ def eq_class(cits):
     return cls
 
 
+def norm_rep(c):
+    """normalised reporter = short name of the guessed edition, read from the edition object (not through
+    corrected_reporter(), which is code under test); raw reporter group when no edition was guessed"""
+    g = getattr(c, "edition_guess", None)
+    return g.short_name if g is not None else c.groups.get("reporter")
+
+
 def full_key(c):
     """identity of a full citation written from the property text, not through __hash__/__eq__:
     None = equal only to itself (placeholder page)"""
@@ -249,7 +256,7 @@ def expected_membership(cits, max_pages=None):
             target = cls[n]
         elif isinstance(c, ShortCaseCitation):
             cands = [i for i in fulls if isinstance(cits[i], FullCaseCitation)
-                     and cits[i].corrected_reporter() == c.corrected_reporter()
+                     and norm_rep(cits[i]) == norm_rep(c)
                      and cits[i].groups.get("volume") == c.groups.get("volume")]
             k = set(cls[i] for i in cands)
             if len(k) == 1:
